@@ -48,7 +48,7 @@ def gen_case(rng, cid):
         if rng.random() < 0.5:
             uses.append(path(*q))
         else:
-            uses.append(path(*(q + [rng.choice(NAMES[:3] + ['A', 'Zed'])])))
+            uses.append(path(*(q + [rng.choice(NAMES + ['A', 'Zed'])])))
     flds = []
     dd = {tuple(pp): {d[2]: d for d in dl} for (pp, dl, _) in mods}
     ulist = [list(u[1:]) for u in uses]
